@@ -140,6 +140,62 @@ def new_report(tier, pid='C16'):
                  assumptions=['equality of the decoded mapping (value round trip) is not decided'])
 
 
+def normalise_encode_tail(encf):
+    """encode() written with an explicit list that is filled by loops,
+         parts = list(FIXED); for T in VAR[:-1]: [if not sep: v = PAD(v)]; parts.append(E); for T in VAR[-1:]: parts.append(E2); return ''.join(parts)
+    is read as the comprehension form the framing rules are stated on:
+         return ''.join(FIXED + [E' for T in VAR[:-1]] + [E2 for T in VAR[-1:]])        (E' = E with v replaced by `v if sep else PAD(v)`)"""
+    import copy
+    from ..match import _Subst
+    body = list(encf.body)
+    if len(body) < 4 or not isinstance(body[-1], ast.Return):
+        return encf
+    b = match_expr("''.join(V_p)", body[-1].value)
+    if b is None:
+        return encf
+    P = b['V_p'].id
+    loops = []
+    k = len(body) - 2
+    while k >= 0 and isinstance(body[k], ast.For) and not body[k].orelse:
+        loops.insert(0, body[k])
+        k -= 1
+    if len(loops) != 2 or k < 0 or not isinstance(body[k], ast.Assign) or len(body[k].targets) != 1 or src(body[k].targets[0]) != P:
+        return encf
+    init = body[k].value
+    fixed = None
+    for pat in ('list(V_f)', 'V_f[:]', 'V_f.copy()', 'V_f + []', '[] + V_f'):
+        m = match_expr(pat, init)
+        if m is not None:
+            fixed = m['V_f']
+    if fixed is None:
+        return encf
+    comps = []
+    for lp in loops:
+        stmts = list(lp.body)
+        sub = {}
+        while stmts and isinstance(stmts[0], ast.If) and not stmts[0].orelse and len(stmts[0].body) == 1 and isinstance(stmts[0].body[0], ast.Assign) \
+                and len(stmts[0].body[0].targets) == 1 and isinstance(stmts[0].body[0].targets[0], ast.Name):
+            g = stmts.pop(0)
+            name = g.body[0].targets[0].id
+            val = g.body[0].value
+            t = g.test
+            if isinstance(t, ast.UnaryOp) and isinstance(t.op, ast.Not):
+                sub[name] = ast.IfExp(test=t.operand, body=ast.Name(id=name, ctx=ast.Load()), orelse=val)
+            else:
+                sub[name] = ast.IfExp(test=t, body=val, orelse=ast.Name(id=name, ctx=ast.Load()))
+        if len(stmts) != 1 or not isinstance(stmts[0], ast.Expr) or match_expr('%s.append(E_x)' % P, stmts[0].value) is None:
+            return encf
+        e = match_expr('%s.append(E_x)' % P, stmts[0].value)['E_x']
+        e = _Subst(sub).visit(copy.deepcopy(e))
+        comps.append(ast.ListComp(elt=e, generators=[ast.comprehension(target=lp.target, iter=lp.iter, ifs=[], is_async=0)]))
+    new_val = ast.Call(func=ast.Attribute(value=ast.Constant(value=''), attr='join', ctx=ast.Load()),
+                       args=[ast.BinOp(left=ast.BinOp(left=fixed, op=ast.Add(), right=comps[0]), op=ast.Add(), right=comps[1])], keywords=[])
+    out = copy.copy(encf)
+    ret = ast.copy_location(ast.Return(value=new_val), body[-1])
+    out.body = body[:k] + [ret]
+    return ast.fix_missing_locations(out)
+
+
 def analyse(rep):
     path = os.path.join(REPO, FILE)
     if not os.path.exists(path):
@@ -314,7 +370,8 @@ def analyse(rep):
                   'reads back, so the following identifier is swallowed' % (e.rng, why, f), what='%s: %s/%s always full width' % (e.rng, f, t))
     rep.unit('identifiers on the fixed-length path', nfixed)
     # --- framing in encode()
-    encf = funcs['encode']
+    encf = normalise_encode_tail(funcs['encode'])
+    funcs['encode'] = encf
     ret = [n for n in ast.walk(encf) if isinstance(n, ast.Return) and n.value is not None]
     comps = [n for n in ast.walk(ret[-1]) if isinstance(n, ast.ListComp)] if ret else []
     nonlast = [c for c in comps if src(c.generators[0].iter).endswith('[:-1]')]
